@@ -96,7 +96,10 @@ Init == /\ y \in Y0..Y1 /\ m = 1 /\ d = 1
         /\ dayNo = YearStart(y)
         /\ tod \in Tods
 
-Record == [y |-> y, m |-> m, d |-> d, f |-> Fields(tod), day |-> dayNo, tod |-> tod,
+\* 1 January 1970 was a Thursday: index 3 of Mon..Sun (growth: ObsTime.getDayOfWeek)
+DayNames == <<"Mon", "Tue", "Wed", "Thu", "Fri", "Sat", "Sun">>
+DayOfWeek(n) == DayNames[((n + 3) % 7) + 1]
+Record == [y |-> y, m |-> m, d |-> d, f |-> Fields(tod), day |-> dayNo, tod |-> tod, dow |-> DayOfWeek(dayNo),
            succ |-> [k \in {kk[1] : kk \in Kinds} |->
                        LET kk == CHOOSE q \in Kinds : q[1] = k
                            s == Shift(kk)
